@@ -112,6 +112,12 @@ class Project:
             p = rng.choice(live)
             c, m, b = self.files[p]
             self.set_file(p, (c + (1 if kind == "append" else 12 if kind == "append-many" else 0), m + (1 if kind == "comment" else 0), b))
+        elif kind == "bloat-most" and live:
+            keep = rng.choice(live)
+            for p in live:
+                if p != keep:
+                    c, m, b = self.files[p]
+                    self.set_file(p, (max(c, 12), m, b))
         elif kind == "add":
             p = rng.choice([q for q in FILES if q not in self.files] or live)
             self.set_file(p, (rng.randint(1, 3), rng.randint(0, 1), 0))
@@ -280,11 +286,18 @@ def analyse(case, obs, model, profile):
     for (kind, i), mo in zip(meta, mouts):
         by[(kind, i)] = mo
 
-    def viol(i, what, **kw):
+    def mk(i, what, **kw):
         o = obs[i]
-        res["violations"].append(dict(kind="property-oracle", level="cli", profile=profile, what=what, step=i, cmd=list(o["cmd"]), now=o["now"],
-                                      cfg=case["cfg"], git=case["git"], seed=case["seed"], steps=case["steps"], h0=o["h0"], h1=o["h1"],
-                                      stdout=o.get("out", "")[:600], stderr=o.get("err", "")[-400:], rc=o.get("rc"), **kw))
+        return dict(kind="property-oracle", level="cli", profile=profile, what=what, step=i, cmd=list(o["cmd"]), now=o["now"],
+                    cfg=case["cfg"], git=case["git"], seed=case["seed"], steps=case["steps"], h0=o["h0"], h1=o["h1"],
+                    stdout=o.get("out", "")[:600], stderr=o.get("err", "")[-400:], rc=o.get("rc"), **kw)
+
+    def viol(i, what, **kw):
+        res["violations"].append(mk(i, what, **kw))
+
+    def known(i, klass, what):
+        # a disagreement inside a (possibly no longer listed) class, with everything needed to replay it
+        res["known"].append((klass, what, mk(i, what, known_class=klass)))
 
     for i, o in enumerate(obs):
         k = o["cmd"]
@@ -299,7 +312,7 @@ def analyse(case, obs, model, profile):
         # -------- panics / fatal exits
         if o["rc"] not in (0, 1, 2):
             if (huge_age and k[0] in ("snapshot", "check")) or since_big:
-                res["known"].append(("K15_overflow", "exit %s on a u64 overflow (%s)" % (o["rc"], tag)))
+                known(i, "K15_overflow", "exit %s on a u64 overflow (%s)" % (o["rc"], tag))
             else:
                 viol(i, "fatal exit status %s" % o["rc"])
             if not ((model_ovf or since_big) and profile == "debug"):
@@ -345,15 +358,15 @@ def analyse(case, obs, model, profile):
                     exp = spec_retention(c, o["now"], o["h0"] + [(o["now"], tots if tots is not None else o["summary"], ent[2] if ent else 0)])
                     if exp != o["h1"]:
                         if huge_age:
-                            res["known"].append(("K15_overflow", "retention with max_age_days*86400 >= 2^64"))
+                            known(i, "K15_overflow", "retention with max_age_days*86400 >= 2^64")
                         else:
                             viol(i, "history after the snapshot is not retention(old ++ [new])", expected=exp[-5:])
                     elif tots is not None and tots != o["summary"]:
                         (_, _, _), restricted, k16 = tot_of_pfiles(model, o["pfiles"])
                         if k[0] == "check" and (o.get("partial") or restricted):
-                            res["known"].append(("K16_restricted_run", "auto-snapshot of a partial check run (%s) recorded %s, stats summary says %s" % (o.get("mode"), tots, o["summary"])))
+                            known(i, "K16_restricted_run", "auto-snapshot of a partial check run (%s) recorded %s, stats summary says %s" % (o.get("mode"), tots, o["summary"]))
                         elif k[0] == "check" and k16:
-                            res["known"].append(("K16_filter_mismatch", "auto-snapshot recorded %s, stats summary says %s (content.exclude / rule-matched files)" % (tots, o["summary"])))
+                            known(i, "K16_filter_mismatch", "auto-snapshot recorded %s, stats summary says %s (content.exclude / rule-matched files)" % (tots, o["summary"]))
                         else:
                             viol(i, "recorded totals differ from stats summary", recorded=tots, summary=o["summary"])
         # -------- trend / history outputs
@@ -381,7 +394,7 @@ def analyse(case, obs, model, profile):
             sexp = None if sd is None else tuple(sd[0])
             if got != sexp:
                 if since_big:
-                    res["known"].append(("K15_overflow", "stats trend --since %s: wrapped duration used" % k[1]))
+                    known(i, "K15_overflow", "stats trend --since %s: wrapped duration used" % k[1])
                 else:
                     viol(i, "stats trend delta differs from current totals minus the selected entry", got=got, expected=sexp)
             elif sd is not None:
@@ -403,8 +416,24 @@ def analyse(case, obs, model, profile):
     return res
 
 
+def ff_directed_case(rng):
+    """auto_snapshot_on_check + --warn-only --fail-fast (RAYON_NUM_THREADS=1) with most files over the limit: whichever file
+    the walker yields first or second fails, the rest is dropped, the run exits 0."""
+    cfg = {"auto": True, "exclude": False, "rule": False, "max_lines": 6, "fail_fast": rng.random() < 0.5,
+           "max_entries": rng.choice([None, 3, 100]), "min_interval_secs": rng.choice([None, 0, 60])}
+    cfg = {k: v for k, v in cfg.items() if v is not None}
+    now = rng.choice([1000, 1_700_000_000])
+    steps = [{"now": now, "edit": None, "cmd": ("check", "full")},
+             {"now": now + 100, "edit": "bloat-most", "cmd": ("check", "warn-only-ff")},
+             {"now": now + 200, "edit": None, "cmd": ("trend", None)},
+             {"now": now + 300, "edit": rng.choice([None, "append"]), "cmd": ("check", "warn-only-ff")},
+             {"now": now + 400, "edit": None, "cmd": ("snapshot", False, False)},
+             {"now": now + 500, "edit": None, "cmd": ("history", None)}]
+    return {"cfg": cfg, "git": False, "steps": steps, "seed": rng.randrange(1 << 30), "profile": "debug", "tag": "ff-directed"}
+
+
 def make_cases(rng, n):
-    cases = []
+    cases = [ff_directed_case(rng) for _ in range(max(4, n // 12))]
     for i in range(n):
         huge = rng.random() < 0.08
         cfg = rand_project_cfg(rng, huge)
@@ -449,6 +478,8 @@ def run_cli(ctx, dbg, rel, model, n):
         for k, v in r["dist"].items():
             tot["distribution"][k] = tot["distribution"].get(k, 0) + v
         tot["distribution"]["profile:" + c.get("profile", "debug")] = tot["distribution"].get("profile:" + c.get("profile", "debug"), 0) + 1
+        if c.get("tag"):
+            tot["distribution"][c["tag"]] = tot["distribution"].get(c["tag"], 0) + 1
         if c["git"]:
             tot["distribution"]["git-project"] = tot["distribution"].get("git-project", 0) + 1
     return tot
